@@ -447,6 +447,12 @@ func main() {
 			rejected++
 			mism++
 			fmt.Fprintf(w, "MISMATCH case=%d pkg=%s kind=rejected-subset-program msg=%s\n", ci, c.name, hex.EncodeToString([]byte(strings.Join(perr, "\n"))))
+		} else if catalogue && externalReference(c.coqErr, c.src) {
+			// the output mentions a declaration of a standard-library package the source imports
+			// (sync.RWMutex, sync.Once, ...): goose leaves imported packages to their own
+			// translation, there is none, and Coq refuses the file: rejected, loudly
+			rejected++
+			fmt.Fprintf(w, "V %s rejected-by-coq-external-reference\n", c.name)
 		} else if c.coqErr != "" {
 			mism++
 			fmt.Fprintf(w, "MISMATCH case=%d pkg=%s kind=output-unusable msg=%s\n", ci, c.name, hex.EncodeToString([]byte(c.coqErr)))
@@ -640,6 +646,18 @@ func declChecks(pkg *progen.Package, v string) []string {
 		}
 	}
 	return probs
+}
+
+var extRefRe = regexp.MustCompile(`The reference ([a-z][a-z0-9_]*)\.[A-Za-z_][A-Za-z0-9_]* was not found`)
+
+// externalReference: coqc failed because of a name qualified by a standard-library
+// package (import path without a dot, other than the ones goose knows) that the source imports
+func externalReference(coqErr, src string) bool {
+	m := extRefRe.FindStringSubmatch(coqErr)
+	if m == nil {
+		return false
+	}
+	return strings.Contains(src, "\""+m[1]+"\"") || strings.Contains(src, "/"+m[1]+"\"")
 }
 
 // lexicalChecks: the definitions Coq sees for the commented package equal, as
